@@ -1,7 +1,7 @@
 (* Agreement between tables / constants regenerated from /repo (Gen/GenTables.v) and the
    hand-written model.  A changed table entry, limit, member name or escape breaks a lemma. *)
 From Coq Require Import ZArith NArith String List Bool Ascii.
-From Sidetree Require Import Json.Json Json.Jcs Sidetree.Composer Sidetree.Validator Sidetree.Hashing.
+From Sidetree Require Import Json.Json Json.Jcs Json.Parse Sidetree.Composer Sidetree.Validator Sidetree.Hashing.
 From SidetreeGen Require Import GenTables.
 Import ListNotations.
 Open Scope string_scope.
@@ -11,6 +11,10 @@ Definition same_strs (a b : list string) : bool :=
 
 Lemma max_id_length_agrees : gen_max_id_length = Z.of_nat max_id_length.
 Proof. reflexivity. Qed.
+(* the canonicalizer's nesting limit (fix c362f28) *)
+Lemma max_nesting_depth_agrees : gen_max_nesting_depth = Z.of_N max_nesting_depth.
+Proof. reflexivity. Qed.
+
 Lemma max_service_type_length_agrees : gen_max_service_type_length = Z.of_nat max_service_type_length.
 Proof. reflexivity. Qed.
 Lemma id_regexp_agrees : gen_id_regexp = id_regexp_source.
